@@ -1,13 +1,19 @@
 (* C08 - Identical sequences are aligned without gaps.
    PARTIAL.  Proved (pure lists, every guide tree, any number of copies): the diagonal raw path expands to
    matches only, and a run all of whose merges are all-match leaves every row gap-free - so the property
-   reduces to "each kernel returns the diagonal on equal operands".  That last step is a statement about
-   binary32 dynamic programming; it is not yet a theorem and is decided on every run by the bit-exact
-   correspondence of the executable binary32 model with the implementation (every merge: raw path and
-   every meetup maximum) and by end-to-end runs over residue compositions, lengths, copy numbers, types
-   and thread counts (DESIGN C08). *)
+   reduces to "each kernel returns the diagonal on equal operands".
+   Proved for that last step, in EXACT arithmetic (the kernel text of Kernels.v - both passes, the meetup with
+   its tie-break, the Hirschberg controller - run over integers with minus infinity, every binary32 parameter
+   taken at its real value): the sequence-sequence kernel returns the diagonal on two equal residue strings of
+   every length, for every scoring scheme that passes a finite check, and kalign's five built-in schemes (as
+   the built code has them now) pass it.  The general lemma behind it (square_meet / raw_path_diag) is stated
+   over any cost record, so it also covers the two profile kernels once their cost accessors are instantiated;
+   that instantiation and the rounding of the binary32 run are NOT theorems: they are decided on every run by
+   the bit-exact correspondence of the executable binary32 model with the implementation (every merge: raw
+   path and every meetup maximum) and by end-to-end runs over residue compositions, lengths, copy numbers,
+   types and thread counts (DESIGN C08). *)
 From Coq Require Import ZArith List Bool Lia.
-From KV Require Import Base FP Params Weave WeaveProofs WeaveCheck DupProofs Kernels Pipeline.
+From KV Require Import Base FP Params Weave WeaveProofs WeaveCheck DupProofs Kernels Pipeline ExactDiag ExactDiagInst.
 Import ListNotations.
 
 (* the raw path 1, 2, .., L against a side of length L is expanded by add_gap_info_to_path_n to L match
@@ -48,4 +54,83 @@ Example C08_instance :
   let s := [4; 4; 4; 4; 4; 4; 4]%Z in
   option_map (map (fun r => snd (fst (fst r)))) (progressive alg_f32 P [s; s; s] [(0, 1, 3); (3, 2, 4)]%nat) =
   Some [diag 7; diag 7].
+Proof. vm_compute. reflexivity. Qed.
+
+(* ---- the kernel step in exact arithmetic ------------------------------------------------------------------ *)
+(* One square sub-problem of the Hirschberg recursion, for ANY cost record (sequence or profile rows/columns): when
+   the rows pair with the columns (dpair), a match never gains more than the two potentials and gains exactly their
+   mean on a pair, and every gap step loses at least gam against the potential of what it skips, then the meetup of
+   the forward and the backward pass picks transition 1 (match -> match) at the middle column.  The tie-break is any
+   non-negative function that stays below gam at that column. *)
+Theorem C08_meetup_of_a_square_picks_the_diagonal :
+  forall (tb : Z -> Z -> Z -> Z), (forall a b i, (0 <= tb a b i)%Z) ->
+  forall (R C : Type) (K : costs (alg_X tb) R C) (pR : R -> Z) (pC : C -> Z) (eR : R -> Z) (gam : Z) (dpair : R -> C -> Prop),
+  (0 < gam)%Z ->
+  (forall r c x u, ub2 x u -> ub2 (k_match (alg_X tb) R C K r c x) (u + pR r + pC c)) ->
+  (forall r c v, dpair r c -> k_match (alg_X tb) R C K r c (Some v) = Some (v + eR r)%Z /\ (2 * eR r = pR r + pC c)%Z) ->
+  (forall c, exists g1 g2 g3, k_ga_ext (alg_X tb) R C K c = Some g1 /\ k_ga_open (alg_X tb) R C K c = Some g2 /\ k_ga_text (alg_X tb) R C K c = Some g3 /\
+     (2 * g1 <= pC c - 2 * gam)%Z /\ (2 * g2 <= pC c - 2 * gam)%Z /\ (2 * g3 <= pC c - 2 * gam)%Z) ->
+  (forall r, exists g1 g2 g3, k_gb_ext (alg_X tb) R C K r = Some g1 /\ k_gb_open (alg_X tb) R C K r = Some g2 /\ k_gb_text (alg_X tb) R C K r = Some g3 /\
+     (2 * g1 <= pR r - 2 * gam)%Z /\ (2 * g2 <= pR r - 2 * gam)%Z /\ (2 * g3 <= pR r - 2 * gam)%Z) ->
+  (forall c, exists g, k_ga_to_a (alg_X tb) R C K c = Some g /\ (g <= 0)%Z) ->
+  (forall r, exists g, k_gb_to_a (alg_X tb) R C K r = Some g /\ (g <= 0)%Z) ->
+  forall M : mcosts (alg_X tb),
+  (forall i, exists g, m_a_ga (alg_X tb) M i = Some g /\ (g <= 0)%Z) -> (exists g, m_a_gb (alg_X tb) M = Some g /\ (g <= 0)%Z) ->
+  (forall i, exists g, m_ga_a (alg_X tb) M i = Some g /\ (g <= 0)%Z) -> (exists g, m_gb_gb_int (alg_X tb) M = Some g /\ (g <= 0)%Z) ->
+  (exists g, m_gb_gb_term (alg_X tb) M = Some g /\ (g <= 0)%Z) -> (exists g, m_gb_a (alg_X tb) M = Some g /\ (g <= 0)%Z) ->
+  forall (RF RB : list R) (CF CB : list C) (fi li fi' li' sz el : bool) (sb eb i0 : Z),
+  (length RF + length RB = length CF)%nat -> (1 <= length RB)%nat -> map pC CB = map pC (rev CF) ->
+  (forall t r c, nth_error RF t = Some r -> nth_error CF t = Some c -> dpair r c) ->
+  (forall t r c, nth_error RB t = Some r -> nth_error CB t = Some c -> dpair r c) ->
+  (tb sb eb (i0 + Z.of_nat (length RF)) < gam)%Z ->
+  exists E, meet_scan (alg_X tb) M sz el sb eb i0 (pass (alg_X tb) R C K fi li (live tb) RF CF)
+                      (rev (pass (alg_X tb) R C K fi' li' (live tb) RB CB)) (None, (-1)%Z, (-1)%Z)
+            = (Some E, 1%Z, (i0 + Z.of_nat (length RF))%Z).
+Proof. exact square_meet. Qed.
+Print Assumptions C08_meetup_of_a_square_picks_the_diagonal.
+
+(* the controller: a kernel whose meetup finds the middle of every square sub-problem writes the diagonal path *)
+Theorem C08_controller_writes_the_diagonal :
+  forall (tb : Z -> Z -> Z -> Z) (Kn : kernel (alg_X tb)) (n : Z),
+  (forall o e, (0 <= o)%Z -> (o < e)%Z -> (e <= n)%Z -> let mid := ((e - o) / 2 + o)%Z in
+     exists v, k_meetup (alg_X tb) Kn mid o e (k_forward (alg_X tb) Kn o mid o e (live0 (alg_X tb)))
+                        (k_backward (alg_X tb) Kn mid e o e (live0 (alg_X tb))) = (v, 1%Z, mid)) ->
+  (0 <= n)%Z -> raw_path (alg_X tb) Kn n n = Some (diag (Z.to_nat n)).
+Proof. intros tb Kn n H Hn. rewrite <- seq1_diag. apply raw_path_diag; assumption. Qed.
+Print Assumptions C08_controller_writes_the_diagonal.
+
+(* the sequence-sequence kernel (accessors of aln_seqseq.c) on two equal strings, any length, any scheme that passes
+   the finite check [scheme_ok]; [unit] is what 1/2000 measures in the integer scale *)
+Theorem C08_seqseq_kernel_returns_the_diagonal_on_equal_strings :
+  forall (unit : Z), (0 <= unit)%Z -> forall (S : list (list Z)) (gpo gpe tgpe gam : Z) (dim : nat) (mx : Z),
+  scheme_ok unit S gpo gpe tgpe gam dim mx = true ->
+  forall x : list Z, Forall (fun c => (Z.to_nat c <? dim)%nat = true) x ->
+  raw_path (AX unit) (ss_kernel (AX unit) (PX unit S gpo gpe tgpe) x x) (Z.of_nat (length x)) (Z.of_nat (length x)) = Some (diag (length x)).
+Proof. intros unit Hu S gpo gpe tgpe gam dim mx Hok x Hx. rewrite <- seq1_diag. exact (ss_identical_diagonal unit Hu S gpo gpe tgpe gam dim mx Hok x Hx). Qed.
+Print Assumptions C08_seqseq_kernel_returns_the_diagonal_on_equal_strings.
+
+(* kalign's five built-in schemes, read from the built code on this run (Generated/Tables.v) and taken at the real
+   values of their binary32 entries, all pass the check (this is a finite computation, re-done on every run) ... *)
+Theorem C08_builtin_schemes_pass_the_check :
+  forallb default_scheme_ok [PS_DNA; PS_DNA_INTERNAL; PS_RNA; PS_PROTEIN; PS_GON] = true.
+Proof. exact default_schemes_ok. Qed.
+Print Assumptions C08_builtin_schemes_pass_the_check.
+
+(* ... hence: under each of them, two equal strings of any length over the residue codes of that alphabet are
+   aligned on the diagonal, which add_gap_info expands to matches only *)
+Theorem C08_equal_pair_has_no_gap_under_builtin_schemes : forall s m gpo gpe tgpe x,
+  scheme_of s = Some (m, gpo, gpe, tgpe) ->
+  Forall (fun c => (Z.to_nat c <? dim_of s)%nat = true) x -> (1 <= length x)%nat ->
+  raw_path (AX unitX) (ss_kernel (AX unitX) (PX unitX m gpo gpe tgpe) x x) (Z.of_nat (length x)) (Z.of_nat (length x)) = Some (diag (length x)) /\
+  add_gap_info (Z.of_nat (length x)) (diag (length x)) = Some (repeat 0%Z (length x)).
+Proof.
+  intros s m gpo gpe tgpe x Hs Hx Hl. split.
+  - rewrite <- seq1_diag. exact (ss_identical_diagonal_default_schemes s m gpo gpe tgpe x Hs Hx).
+  - apply diagonal_path_all_match. exact Hl.
+Qed.
+Print Assumptions C08_equal_pair_has_no_gap_under_builtin_schemes.
+
+(* the premise is met: every built-in scheme decodes *)
+Example C08_builtin_schemes_decode :
+  forallb (fun s => match scheme_of s with Some _ => true | None => false end) [PS_DNA; PS_DNA_INTERNAL; PS_RNA; PS_PROTEIN; PS_GON] = true.
 Proof. vm_compute. reflexivity. Qed.
